@@ -859,6 +859,7 @@ class Filter:
     def evaluate(self, left: object, context: RenderContext) -> object:
         func = context.filter(self.name, token=self.token)
         positional_args, keyword_args = self.evaluate_args(context)
+        self._raise_for_reserved_arguments(func, keyword_args)
         try:
             return func(left, *positional_args, **keyword_args)
         except LiquidTypeError as err:
@@ -872,6 +873,7 @@ class Filter:
     async def evaluate_async(self, left: object, context: RenderContext) -> object:
         func = context.filter(self.name, token=self.token)
         positional_args, keyword_args = await self.evaluate_args_async(context)
+        self._raise_for_reserved_arguments(func, keyword_args)
 
         try:
             return func(left, *positional_args, **keyword_args)
@@ -882,6 +884,19 @@ class Filter:
             raise
         except (TypeError, ValueError, ArithmeticError, LookupError) as err:
             raise LiquidTypeError(f"{self.name}: {err}", token=self.token) from err
+
+    def _raise_for_reserved_arguments(
+        self, func: object, keyword_args: dict[str, object]
+    ) -> None:
+        # `context` and `environment` are passed to filters that ask for them. A
+        # template can't supply its own.
+        reserved = getattr(func, "keywords", None)
+        if reserved and not reserved.keys().isdisjoint(keyword_args):
+            names = ", ".join(sorted(reserved.keys() & keyword_args.keys()))
+            raise LiquidTypeError(
+                f"{self.name}: {names} can't be used as an argument name",
+                token=self.token,
+            )
 
     def evaluate_args(
         self, context: RenderContext
